@@ -6,6 +6,7 @@ implementation's own artefacts, and the occurrence oracles (C01–C09).
 import Driver.Dump
 import PmVerif.Model.ManyMatcher
 import PmVerif.Model.BuilderT
+import PmVerif.Proofs.C07Check
 import PmVerif.Spec.Occurs
 import PmVerif.Spec.MatRun
 namespace Drv
@@ -79,6 +80,9 @@ structure E2EDom (K V P H M Pat : Type) where
   the stream (port graphs: `LinksOK`, `tdom_pg_linksOKb_iff`) -/
   wfPat : Pat → Bool := fun _ => true
   wfHost : H → Bool := fun _ => true
+  /-- decidable structural unambiguity of the dumped automaton (C07: `c07_string_checked`), if
+  the domain has one -/
+  unambOK : Option (Automaton K P → Bool) := none
 
 structure E2EOut where
   oracle : List String := []
@@ -284,6 +288,19 @@ def handleE2E {K V P H M Pat} [DecidableEq K] [DecidableEq V] [DecidableEq P]
       -- a non-compiled id must never be reported
       if many.any fun (i, _) => !compiled.contains i then
         out := { out with oracle := out.oracle ++ ["C06 match reported for a skipped pattern id"] }
+  -- the decidable side conditions of the end-to-end theorems, on the dumped automaton: for
+  -- strings and matrices `strProg_built` / `matProg_built` make programOK a theorem about every
+  -- build, so a failure means model and code differ; unambOK is the hypothesis of
+  -- `c07_string_checked` (exactly-once for every host)
+  if dom.name == "STR" || dom.name == "MAT" then
+    match dom.programOK with
+    | some f => if f A pats cvs == 0 then
+        out := { out with dis := out.dis ++ ["BUILD.programOK the dumped automaton violates the per-state conditions proved for every build"] }
+    | none => pure ()
+  match dom.unambOK with
+  | some f => if !f A then
+      out := { out with dis := out.dis ++ ["RUN.unambOK the dumped automaton fails the structural unambiguity check (hypothesis of c07_string_checked)"] }
+  | none => pure ()
   let nMerges := (evs.filter fun e => match e with | .merge _ v => v.length ≥ 2 | _ => false).length
   let nFuse := (evs.filter fun e => match e with | .group .. => true | _ => false).length
   out := { out with flags :=
@@ -294,6 +311,9 @@ def handleE2E {K V P H M Pat} [DecidableEq K] [DecidableEq V] [DecidableEq P]
     (match dom.programOK with
      | none => []
      | some f => match f A pats cvs with | 1 => ["programOK"] | 0 => ["programOK-FAILS"] | _ => ["programOK-na"]) ++
+    (match dom.unambOK with
+     | none => []
+     | some f => if f A then ["unambOK"] else ["unambOK-FAILS"]) ++
     (if nMatches > 0 || nMerges > 0 || nFuse > 0 then ["nt"] else []) }
   pure out.render
 
@@ -340,7 +360,8 @@ def strE2E : E2EDom Nat Nat CharPred (List Nat) StrPos (List CharVar) :=
     pKey := pNat, pCons := pSCons, pPat := pList pCharVar, pHost := pList pNat, pMap := pStrPos,
     sMap := sStrPos, convert := fun p => some (strConstraints p), consEq := fun a b => a == b,
     extraKeys := fun _ => [], judge := some (judgeExpected sStrPos strExpected),
-    windows := strWindows, sHost := sNats, programOK := some fun a ps _ => if strProgramOK a ps then 1 else 0 }
+    windows := strWindows, sHost := sNats, programOK := some fun a ps _ => if strProgramOK a ps then 1 else 0,
+    unambOK := some fun a => C07.unambOK C07.charMx a }
 
 end Drv
 
@@ -365,7 +386,8 @@ def matE2E : E2EDom MKey MVal CharPred MatHost MatPos MatPattern :=
     pKey := pMKey, pCons := pMCons, pPat := pList (pList pMatCell), pHost := pList (pList pNat),
     pMap := pMatPos, sMap := sMatPos, convert := fun p => some (matConstraints p),
     consEq := fun a b => a == b, extraKeys := fun _ => [], judge := some (judgeExpected sMatPos matExpected),
-    programOK := some fun a ps _ => if matProgramOK a ps then 1 else 0 }
+    programOK := some fun a ps _ => if matProgramOK a ps then 1 else 0,
+    unambOK := some fun a => C07.unambOK C07.charMx a }
 
 structure TPat where
   cons : List TCons
